@@ -370,6 +370,11 @@ impl CommandLine {
         for sub_tokens in split_tokens_by_pipes(&tokens) {
             match Command::from_tokens(sub_tokens) {
                 Ok(c) => {
+                    // e.g. `echo x | > f`: nothing left once the
+                    // redirections are taken out
+                    if c.tokens.is_empty() {
+                        return Err(String::from("syntax error: command expected"));
+                    }
                     commands.push(c);
                 }
                 Err(e) => {
